@@ -212,6 +212,27 @@ class A(object):
 class S(A): pass
 ARGS = ((1,), {'c': 5})
 ''',
+    # a range form stacked over a name form it overlaps: what the outer layer selects depends on what the inner
+    # one advertises, on the class and on every instance alike
+    'posoargs-end-over-kwoargs-method': '''
+from sigtools import modifiers
+class A(object):
+    @modifiers.posoargs(end='b')
+    @modifiers.kwoargs('a')
+    def m(self, a, b, c=3): return (self, a, b, c)
+class S(A): pass
+ARGS = ((1,), {'a': 5})
+''',
+    'kwoargs-start-over-posoargs-method': '''
+from sigtools import modifiers
+class A(object):
+    def __len__(self): return 0          # instances are falsy
+    @modifiers.kwoargs(start='c')
+    @modifiers.posoargs(end='a')
+    def m(self, a, b, c=3, d=4): return (self, a, b, c, d)
+class S(A): pass
+ARGS = ((1, 2), {'d': 5})
+''',
     'forger-method-emulate': '''
 from sigtools import specifiers
 class A(object):
